@@ -172,6 +172,14 @@ type FuncSpec struct {
 	InOutVal map[string]int
 	// AlsoRet: RetVal function whose Lean twin returns (value, final value of this parameter) - the callee side of InOutVal
 	AlsoRet string
+
+	// ---- error values as structures (C11 error side; default-off)
+	// ErrStruct: `oidc.ErrX().WithDescription(..).WithParent(..)` is NOT collapsed to the name "ErrX": constructors and With-methods are
+	// translated like any other call (Rename["ErrX()"], Rename[".WithDescription()"] = method rename by method NAME, receiver first).
+	// ErrorsAsBind: `if ok := errors.As(e, &v); C {..}` / `if errors.As(e, &v) {..}` -> `let (ok, v) := (Rename["errors.As()"] e v); if C ..`
+	// (the Lean twin returns found? and the target afterwards).
+	ErrStruct    bool
+	ErrorsAsBind bool
 }
 
 // StructLit: `&pkg.T{K: V, ...}` becomes `({ K := V, ... } : Lean)`, restricted to the fields in Keep.
@@ -841,7 +849,7 @@ func (t *tr) argsOf(callee string, as []ast.Expr) string {
 }
 
 func (t *tr) call(c *ast.CallExpr) string {
-	if n := t.errChainP(c); n != "" {
+	if n := t.errChainP(c); n != "" && !t.spec.ErrStruct {
 		return leanStr(n)
 	}
 	fun := c.Fun
@@ -970,6 +978,12 @@ func (t *tr) call(c *ast.CallExpr) string {
 				return "(" + gf + " now " + recv + " " + a + ")"
 			}
 			return "(" + gf + " now " + recv + ")"
+		}
+		if r, ok := t.spec.Rename["."+m+"()"]; ok { // method rename by method name: receiver first
+			if a := t.args(c.Args); a != "" {
+				return "(" + r + " " + recv + " " + a + ")"
+			}
+			return "(" + r + " " + recv + ")"
 		}
 		if identityMethods[m] && len(c.Args) == 0 {
 			return recv
@@ -1908,6 +1922,33 @@ func (t *tr) block(stmts []ast.Stmt, k cont) string {
 			}
 		}
 		cont := rest
+		if t.spec.ErrorsAsBind {
+			// if ok := errors.As(e, &v); C {..}   /   if errors.As(e, &v) {..}
+			var asCall *ast.CallExpr
+			okName := "asOk_"
+			plain := *x
+			if as, isAs := x.Init.(*ast.AssignStmt); isAs && len(as.Lhs) == 1 && len(as.Rhs) == 1 {
+				if c, isCall := as.Rhs[0].(*ast.CallExpr); isCall && exprString(c.Fun) == "errors.As" {
+					asCall, okName = c, exprString(as.Lhs[0])
+					plain.Init = nil
+				}
+			} else if c, isCall := x.Cond.(*ast.CallExpr); isCall && x.Init == nil && exprString(c.Fun) == "errors.As" {
+				asCall = c
+				plain.Cond = ast.NewIdent(okName)
+			}
+			if asCall != nil && len(asCall.Args) == 2 {
+				if u, isAddr := asCall.Args[1].(*ast.UnaryExpr); isAddr && u.Op == token.AND {
+					fn, hasFn := t.spec.Rename["errors.As()"]
+					if !hasFn {
+						fn = "Go.errorsAs"
+					}
+					v := t.expr(u.X)
+					return "let (" + okName + ", " + v + ") := (" + fn + " " + t.expr(asCall.Args[0]) + " " + v + ");\n" + t.pad() +
+						t.block(append([]ast.Stmt{&plain}, stmts[1:]...), k)
+				}
+				return t.bad("errors.As target is not an address", x)
+			}
+		}
 		// if err := f(...); err != nil { body }
 		if x.Init != nil {
 			as, ok := x.Init.(*ast.AssignStmt)
